@@ -241,9 +241,15 @@ def myokit_to_gotran(model: myokit.Model, protocol=None) -> ODE:
 
 
 class SymPyExpressionReader(myokit.formats.sympy.SymPyExpressionReader):
-    """Expression reader that accepts And / Or with more than two operands.
-    In sympy these can have any number of operands (and are always flattened),
-    while the operators in myokit are binary"""
+    """Expression reader that accepts And / Or with more than two operands
+    (in sympy these can have any number of operands and are always flattened,
+    while the operators in myokit are binary) and the constants pi and E"""
+
+    def ex(self, e):
+        if isinstance(e, sp.NumberSymbol):
+            # Constants like pi and E (= exp(1)) are not handled by myokit's reader
+            return myokit.Number(float(e))
+        return super().ex(e)
 
     def _ex_nary(self, e, operator):
         operands = [self.ex(x) for x in e.args]
